@@ -24,16 +24,19 @@ class DtExtract(Harness):
     def __init__(self, fn, unit, maxn):
         self.fn = fn; self.unit = unit; self.maxn = maxn
         self.name = f"C19.dt.{fn}.{unit}.n{maxn}"
-        self.bounds = {"elements": f"0..{maxn}", "unit": unit, "calling forms": "module function, .dt proxy, scalar, .dt proxy of a reversed view after the proxy of the vector itself was used"}
+        self.bounds = {"elements": f"0..{maxn}", "unit": unit, "calling forms": "module function, .dt proxy, scalar, .dt proxy of a reversed view after the proxy of the vector itself was used, .dt proxy used again after the vector was overwritten in place"}
         self.symbolic = ["ticks (years 1..9999) and NaT positions"]; self.choice_dims = ["length", "calling form"]
         self.goals = [f"dt.py:{fn}", "dt.py:_pull_int"]
     def build(self, ctx):
-        form = choice("form", ["module", "proxy", "scalar", "proxy_derived"])
+        form = choice("form", ["module", "proxy", "scalar", "proxy_derived", "proxy_after_edit"])
         n = choice("n", range(self.maxn + 1)) if form != "scalar" else 1
         x = mk_col(self.unit, n, "x", cls="Vector")
         inp = {"x": x, "fn": self.fn}
         if form == "proxy": inp["proxy"] = True
         if form == "proxy_derived": inp["proxy"] = "derived"
+        if form == "proxy_after_edit":
+            # x is what the vector holds when the proxy is used the second time; before, it held other values
+            inp["proxy"] = "after_edit"; inp["before"] = mk_col(self.unit, n, "w", cls="Vector")
         if form == "scalar":
             inp["scalar"] = True
             ctx.assume(x.cells[0] != INT64_MIN, note="scalar form: a non-missing datetime scalar")
@@ -184,12 +187,15 @@ class Regex(Harness):
         self.symbolic = ["string contents"]; self.choice_dims = ["length", "pattern", "calling form"]
         self.goals = [f"regex.py:{fn}"]
     def build(self, ctx):
-        form = choice("form", ["module", "proxy", "scalar"])
+        form = choice("form", ["module", "proxy", "proxy_after_edit", "scalar"])
         n = choice("n", range(self.maxn + 1)) if form != "scalar" else 0
         pat = choice("pattern", PATTERNS)
         args = [pat] + (["R"] if self.fn in ("sub", "subn") else [])
         inp = {"x": mk_col("T", n, "x", cls="Vector"), "fn": self.fn, "args": args}
         if form == "proxy": inp["proxy"] = True
+        if form == "proxy_after_edit":
+            # x is what the vector holds when the proxy is used the second time; before, it held other strings
+            inp["proxy"] = "after_edit"; inp["before"] = mk_col("T", n, "w", cls="Vector")
         if form == "scalar":
             inp["scalar"] = True; inp["scalar_value"] = SymStr(symx.sym_str("s"))
         fl = choice("flags", [0, 2, 8])         # none, re.IGNORECASE, re.MULTILINE
